@@ -281,6 +281,7 @@ func runUDF(t *testing.T, c UDFCase, r *rep.R) []problem {
 	if r != nil {
 		r.Add("evaluations", 1)
 		r.Add("udf_cases", 1)
+		r.Add("transitions", int64(3+len(c.Seq)))
 	}
 	if pan != nil {
 		return []problem{{"panic:udf:" + cls + ":" + site(fmt.Sprint(pan)), fmt.Sprintf("%s: %s", c, rep.Short(fmt.Sprint(pan)))}}
